@@ -97,6 +97,10 @@ Record store_good (s : store) (r : result) : Prop := mk_store_good {
     | OSliceRef => r_data r = r_acc r
     | OSlice => length (r_data r) = length (store_mem s) /\ firstn (r_init r) (r_data r) = r_acc r
     end;
+  (* every slice handed out lies in the part of the container that was added and is still intact
+     when everything has been released *)
+  sg_held : Forall (report_held (r_data r ++ r_rest r) (length (store_data s))
+                                (length (store_data s) + r_init r)) (r_reports r);
   (* the memory before the view's window (the old contents) and behind the capped window is untouched *)
   sg_frame : forall j, j < length (store_data s) \/ length (store_data s) + store_spare s <= j ->
              nth_error (r_data r ++ r_rest r) j = nth_error (store_mem s) j }.
@@ -115,8 +119,9 @@ Proof.
   assert (Ha : acc_ok m v []) by (split; [cbn; lia|intros i Hi; lia]).
   pose proof (run_good total p m v [] eq_refl Hv Ha) as G.
   set (o := before [EOpen (room v)] [] [] (run m v [] p)).
-  assert (Go : good total m v [] o) by (apply good_before; [exact G|constructor|constructor]).
-  clearbody o. clear G. destruct Go as [g_len0 g_lo0 g_hi0 g_acc0 g_ext0 g_frame0 g_exit0 g_views0 g_reports0]. rewrite H0 in *.
+  assert (Go : good total m v [] o) by (apply good_before; [exact G|constructor|constructor|constructor]).
+  clearbody o. clear G. destruct Go as [g_len0 g_lo0 g_hi0 g_acc0 g_ext0 g_frame0 g_exit0 g_views0 g_reports0 g_held0].
+  rewrite Hoff in g_held0. rewrite H0 in *.
   destruct g_acc0 as [Lc Nc]. cbn [with_init v_off v_cap v_init] in Lc, Nc.
   destruct g_ext0 as [log Hlog]. cbn [app] in Hlog.
   pose proof (store_mem_length s) as Hml. fold m in Hml. fold total in Hml.
@@ -140,6 +145,7 @@ Proof.
     + intros Hw. rewrite <- (Hwf Hw). lia.
     + rewrite firstn_length, skipn_length. lia.
     + rewrite Eo. exact Hfirst.
+    + rewrite firstn_skipn. exact g_held0.
     + intros j Hj. rewrite firstn_skipn. apply Hframe, Hj.
   - (* ArrayVec *) subst len.
     replace (length (s_mem o) <? length (store_data s) + s_init o) with false by (symmetry; apply Nat.ltb_ge; lia).
@@ -147,6 +153,7 @@ Proof.
     + intros Hw. rewrite <- (Hwf Hw). lia.
     + rewrite firstn_length, skipn_length. lia.
     + rewrite Eo. exact Hfirst.
+    + rewrite firstn_skipn. exact g_held0.
     + intros j Hj. rewrite firstn_skipn. apply Hframe, Hj.
   - (* slice: no Drop *)
     rewrite Hown in *. cbn [length Nat.add app] in *.
@@ -154,6 +161,7 @@ Proof.
     + intros Hw. rewrite <- (Hwf Hw). lia.
     + cbn [length]. lia.
     + rewrite Eo. split; [lia|exact Hfirst].
+    + rewrite app_nil_r, Hown. exact g_held0.
     + intros j Hj. rewrite Hown in Hj. cbn [length Nat.add] in Hj. rewrite app_nil_r. apply Hframe, Hj.
   - (* slice reference: narrowed to the initialized part *)
     rewrite Hown in *. cbn [length Nat.add app] in *.
@@ -162,6 +170,7 @@ Proof.
     + intros Hw. rewrite <- (Hwf Hw). lia.
     + rewrite firstn_length, skipn_length. lia.
     + rewrite Eo. exact Hfirst.
+    + rewrite firstn_skipn, Hown. exact g_held0.
     + intros j Hj. rewrite Hown in Hj. cbn [length Nat.add] in Hj. rewrite firstn_skipn. apply Hframe, Hj.
 Qed.
 
@@ -182,18 +191,94 @@ Proof.
   - rewrite Nat.min_r by assumption. reflexivity.
 Qed.
 
-Lemma pwrites_acc total : forall ws m v acc, length m = total -> view_ok total v ->
-  s_acc (run m v acc (pwrites ws PInit)) = acc ++ firstn (room v) (concat ws).
+Lemma pwrites_run total : forall ws m v acc, length m = total -> view_ok total v -> acc_ok m v acc ->
+  let o := run m v acc (pwrites ws PInit) in
+  s_acc o = acc ++ firstn (room v) (concat ws)
+  /\ s_reports o = [(v_off v, s_acc o, s_acc o)]
+  /\ s_exit o = XOk
+  /\ exists evs, s_evs o = evs ++ [EBytes (s_acc o)].
 Proof.
-  induction ws as [|w ws IH]; intros m v acc Hl Hv; cbn [pwrites concat].
+  induction ws as [|w ws IH]; intros m v acc Hl Hv Ha; cbn [pwrites concat].
   - cbn [run]. rewrite firstn_nil, app_nil_r.
-    destruct (initialized m v) as [bs|e|s|]; reflexivity.
+    rewrite (initialized_spec m v acc) by (try rewrite Hl; assumption).
+    cbn [stop s_acc s_reports s_exit s_evs]. repeat split. exists []. reflexivity.
   - cbn [run]. destruct (extend_store w m v) as [m' [E [L N]]]; [rewrite Hl; exact Hv|]. rewrite E.
-    rewrite andb_false_r. cbn [before s_acc].
+    rewrite andb_false_r. cbn [before s_acc s_reports s_exit s_evs app].
     assert (Hg : length (firstn (room v) w) <= room v) by (rewrite firstn_length; lia).
-    rewrite IH.
-    + rewrite firstn_app_room, app_assoc. f_equal. f_equal.
+    destruct (spare_store total m m' v acc _ Hv Ha Hg N) as [Ha' _].
+    assert (Hle : v_init v + length (firstn (room v) w) <= v_cap v)
+      by (destruct Hv; revert Hg; generalize (length (firstn (room v) w)); unfold room; lia).
+    destruct (IH m' (with_init v (v_init v + length (firstn (room v) w))) (acc ++ firstn (room v) w))
+      as [H1 [H2 [H3 [evs H4]]]]; [lia|apply with_init_ok; assumption|exact Ha'|].
+    split; [|split; [exact H2|split; [exact H3|]]].
+    + rewrite H1. rewrite firstn_app_room, app_assoc. f_equal. f_equal.
       generalize (length (firstn (room v) w)). intros LL. unfold room, with_init. cbn [v_cap v_init]. lia.
-    + lia.
-    + apply with_init_ok; [exact Hv|]. destruct Hv. revert Hg. generalize (length (firstn (room v) w)). unfold room. lia.
+    + eexists. rewrite H4. rewrite app_comm_cons. reflexivity.
+Qed.
+
+(* with_buffer(store, |b| { b.write(w1); ...; b.write(wn); b.initialized() }) on any (capped) store *)
+Theorem run_store_pwrites s ws : store_wf s = true ->
+  let r := run_store s (pwrites ws PInit) in
+  r_acc r = firstn (Z.to_nat (store_cap s)) (concat ws)
+  /\ r_reports r = [(length (store_data s), r_acc r, r_acc r)]
+  /\ r_exit r = XOk
+  /\ exists evs, r_evs r = evs ++ [EBytes (r_acc r)].
+Proof.
+  intros Hw. destruct (open_store_spec s) as [v [E [Hv [H0 [Hoff [Hcap Hwf]]]]]].
+  pose proof (run_store_good s (pwrites ws PInit)) as G.
+  unfold run_store in *. rewrite E in *.
+  assert (Ha : acc_ok (store_mem s) v []) by (split; [cbn; lia|intros i Hi; lia]).
+  destruct (pwrites_run _ ws (store_mem s) v [] eq_refl Hv Ha) as [H1 [H2 [H3 [evs H4]]]].
+  cbn [app] in H1.
+  assert (Hroom : room v = Z.to_nat (store_cap s)) by (unfold room; rewrite <- (Hwf Hw); lia).
+  set (o := before [EOpen (room v)] [] [] (run (store_mem s) v [] (pwrites ws PInit))) in *.
+  assert (Ho : s_acc o = firstn (Z.to_nat (store_cap s)) (concat ws) /\ s_reports o = [(length (store_data s), s_acc o, s_acc o)]
+               /\ s_exit o = XOk /\ exists evs, s_evs o = evs ++ [EBytes (s_acc o)]).
+  { subst o. cbn [before s_acc s_reports s_exit s_evs app]. rewrite <- Hroom, <- Hoff.
+    repeat split; try assumption. exists (EOpen (room v) :: evs). rewrite H4. reflexivity. }
+  clearbody o. destruct Ho as [A1 [A2 [A3 A4]]].
+  destruct G as [_ _ Gx _ _ _ _ _ _ _].
+  unfold finish, release in *.
+  destruct (store_owner s); try destruct (_ <? _);
+    cbn [r_acc r_reports r_exit r_evs] in *; repeat split; try assumption;
+    exfalso; destruct Gx as [H|[H|[H|H]]]; try discriminate H;
+    injection H; intros H'; vm_compute in H'; discriminate H'.
+Qed.
+
+
+(* ---------- the slice-index expressions of buffer/src, one obligation each ---------- *)
+
+(* what has to hold of a BufferRef for each `[a..b]` (and each checked subtraction / unsafe
+   precondition) applied to it to be in bounds; `total` is the size of the root allocation *)
+Record index_obligations (total : nat) (v : view) : Prop := mk_index_obligations {
+  ob_lib_extend : v_init v <= v_cap v;             (* lib.rs extend:            &mut self.buffer[*self.initialized_..] *)
+  ob_lib_uninitialized_mut : v_init v <= v_cap v;  (* lib.rs uninitialized_mut: &mut self.buffer[*self.initialized_..] *)
+  ob_lib_initialized : v_init v <= v_cap v;        (* lib.rs initialized:       &self.buffer[..*self.initialized_] *)
+  ob_lib_remaining : v_init v <= v_cap v;          (* lib.rs remaining:         self.buffer.len() - *self.initialized_ *)
+  ob_buffer_ref_buffer : v_init v <= v_cap v;      (* buffer_ref.rs buffer:     &mut self.buffer.buffer[len..] *)
+  ob_lib_cap_at : forall n, v_init v = 0 ->        (* lib.rs cap_at:            &mut self.buffer[..index], index = min(n, len) *)
+      exists c, cap_view v n = Ok c /\ v_cap c <= v_cap v /\ v_off c = v_off v;
+  ob_raw_window : v_off v + v_cap v <= total;      (* vec.rs / arrayvec.rs from_raw_parts_mut(start, remaining), wildly_unsafe:
+                                                      the window lies inside the allocation *)
+  ob_write_in_window : forall i, i < v_cap v -> v_off v + i < total   (* every byte extend / a reader touches *) }.
+
+Lemma view_ok_obligations total v : view_ok total v -> index_obligations total v.
+Proof.
+  intros Hv. pose proof Hv as [Hi Ht]. constructor; try assumption.
+  - intros n H0. destruct (cap_view_spec v n total Hv H0) as [c [E [Ho [_ [Hc _]]]]].
+    exists c. repeat split; assumption.
+  - intros i Hlt. lia.
+Qed.
+
+Definition checked_sites : list Z :=
+  [site_extend_index; site_uninit_index; site_initialized_index; site_cap_at_index;
+   site_sliceref_index; site_nested_index; site_remaining_sub; site_cap_at_assert;
+   site_arrayvec_set_len; site_vec_set_len; site_parent_counter; site_mem_oob].
+
+Lemma safe_exit_not_checked x site : safe_exit x -> In site checked_sites -> x <> XPanic site.
+Proof.
+  intros Hs Hin Hx. subst x.
+  destruct Hs as [H|[H|[H|H]]]; try discriminate H;
+    injection H as ->; vm_compute in Hin;
+    repeat (destruct Hin as [Hin|Hin]; [discriminate Hin|]); contradiction.
 Qed.
